@@ -531,8 +531,11 @@ class Canon:
         self.infeasible = set()
         self.contra = []
         if self.assume:
+            from .cfg import _eval3, literals
+            # an edge is excluded if the assumed atoms force one of its implications the other way, or decide its test the other way
             self.contra = [(s, d) for s, d, test, pol in self.g.branch_edges()
-                           if any(at.text in self.assume and self.assume[at.text] != p for at, p in implied(test, pol))]
+                           if any(at.text in self.assume and self.assume[at.text] != p for at, p in implied(test, pol)) or
+                           _eval3(literals(test), self.assume) not in (None, pol)]
             self.infeasible = set(self.g.stmt) - self.g.reachable(0, skip_edges=self.contra)
         self.sites = {}     # name -> [(cfg node, value expr | OPAQUE, sel)]
         for n, st in self.g.stmt.items():
